@@ -263,6 +263,81 @@ func (g *c18Gen) generate(thorough bool, n int) {
 		s1.Setup = []xspec{setup, {Tag: "setup", Class: "valid", Method: "POST", Path: "/v2/collections/names/points", User: "alice", Plan: "BASIC", CT: ctJ, Body: jObj("points", jArr(jObj("w", jVec(1, 2)))).JSON()}}
 		g.add(s1)
 	}
+	// ---- dotted index properties: a root key literally named like the property next to the nested map.
+	// The dispatcher of the shard (msgpack Decoder.Query) walks the nested path, so the nested value is
+	// the one that must be validated; the literal key is an ordinary unindexed field.
+	type dottedProp struct {
+		root, leaf string
+		good       *jv
+		bad        []*jv
+		badNames   []string
+	}
+	dprops := []dottedProp{
+		{"geo", "vec", jVec(1, 2, 3), []*jv{jVec(1, 2), jVec(1, 2, 3, 4), jVec(), jStr("v"), jArr(jStr("a"), jStr("b"), jStr("c"))}, []string{"len2", "len4", "len0", "string", "strings"}},
+		{"geo", "flat", jVec(1, 2), []*jv{jVec(1, 2, 3), jVec(1), jInt64(7)}, []string{"len3", "len1", "int"}},
+		{"geo", "name", jStr("nm"), []*jv{jInt64(7), jVec(1, 2)}, []string{"int", "vector"}},
+		{"meta", "tags", jStrs("t", "u"), []*jv{jArr(jInt64(1)), jStr("t")}, []string{"ints", "string"}},
+		{"meta", "count", jInt64(5), []*jv{jStr("5"), jVec(1)}, []string{"string", "vector"}},
+		{"meta", "score", jF64(1.5), []*jv{jStr("1.5"), jBool(true)}, []string{"string", "bool"}},
+		{"meta", "text", jStr("alpha"), []*jv{jInt64(1), jStrs("a")}, []string{"int", "strings"}},
+	}
+	for _, dp := range dprops {
+		name := dp.root + "." + dp.leaf
+		type variant struct {
+			tag     string
+			literal *jv // nil: no literal key
+			nested  *jv // nil: the nested map has no such key
+			noRoot  bool
+			scalar  bool // the root key holds a scalar (the walk is blocked)
+		}
+		vs := []variant{
+			{"literal-good:nested-good", dp.good, dp.good, false, false},
+			{"literal-good:nested-missing", dp.good, nil, false, false},
+			{"literal-good:no-nested-map", dp.good, nil, true, false},
+			{"literal-good:nested-blocked", dp.good, nil, false, true},
+			{"literal-bad:nested-missing", dp.bad[0], nil, false, false},
+			{"literal-bad:no-nested-map", dp.bad[0], nil, true, false},
+			{"no-literal:nested-good", nil, dp.good, false, false},
+		}
+		for k, b := range dp.bad {
+			vs = append(vs, variant{"literal-good:nested-" + dp.badNames[k], dp.good, b, false, false},
+				variant{"literal-" + dp.badNames[k] + ":nested-good", b, dp.good, false, false},
+				variant{"literal-" + dp.badNames[k] + ":nested-" + dp.badNames[k], b, b, false, false},
+				variant{"no-literal:nested-" + dp.badNames[k], nil, b, false, false})
+		}
+		for _, v := range vs {
+			pt := jObj("other", jStr("x"))
+			if v.literal != nil {
+				pt.set(name, v.literal)
+			}
+			switch {
+			case v.scalar:
+				pt.set(dp.root, jInt64(3))
+			case !v.noRoot:
+				nm := jObj("unrelated", jInt64(1))
+				if v.nested != nil {
+					nm.set(dp.leaf, v.nested)
+				}
+				pt.set(dp.root, nm)
+			}
+			for _, op := range [][2]string{{"POST", "insert"}, {"PUT", "update"}} {
+				body := pt.clone()
+				if op[0] == "PUT" {
+					body.set("_id", jStr(c18Id(1).String()))
+				}
+				req := jObj("points", jArr(body))
+				g.add(spec("literal-key:"+op[1]+":"+name+":"+v.tag+":json", "mutated", op[0], "/v2/collections/dotted/points", "alice", ctJ, req.JSON()))
+				g.add(spec("literal-key:"+op[1]+":"+name+":"+v.tag+":msgpack", "mutated", op[0], "/v2/collections/dotted/points", "alice", ctM, req.Msgpack()))
+			}
+		}
+	}
+	// searches on the dotted collection (the stored vectors all have the index dimension)
+	g.add(spec("valid:dotted-search", "valid", "POST", "/v2/collections/dotted/points/search", "alice", ctJ,
+		jObj("query", jObj("property", jStr("_or"), "_or", jArr(
+			jObj("property", jStr("geo.vec"), "vectorVamana", jObj("vector", jVec(1, 1, 2), "operator", jStr("near"), "searchSize", jInt(75), "limit", jInt(10))),
+			jObj("property", jStr("geo.flat"), "vectorFlat", jObj("vector", jVec(1, 1), "operator", jStr("near"), "limit", jInt(10),
+				"filter", jObj("property", jStr("meta.count"), "integer", jObj("value", jInt(0), "operator", jStr("greaterThanOrEquals"))))))),
+			"select", jStrs("geo.name", "meta"), "limit", jInt(20)).JSON()))
 	// ---- designated requests of the confirmed defects
 	for _, d := range [][3]string{{"GET", "/v1/collections", ""}, {"GET", "/v1/collections/rich", ""},
 		{"POST", "/v1/collections/rich/points", `{"points":[{"vector":[1,2,3,4]}]}`}, {"PUT", "/v1/collections/rich/points", `{"points":[{"id":"00000000-0000-4000-8000-000000000001","vector":[1,2,3,4]}]}`},
